@@ -347,6 +347,36 @@ func c11FileInfo(file []byte, f *parquet.File, encrypted ...bool) (out [][]c11Ch
 	return out, nil
 }
 
+// c11InfoDiff: "" when two readings of one file's metadata agree, else "<aspect>: <where>"
+func c11InfoDiff(before, after [][]c11Chunk) string {
+	if len(before) != len(after) {
+		return fmt.Sprintf("row-groups: %d before, %d after", len(before), len(after))
+	}
+	for gi := range before {
+		if len(before[gi]) != len(after[gi]) {
+			return fmt.Sprintf("column-chunks: row group %d: %d before, %d after", gi, len(before[gi]), len(after[gi]))
+		}
+		for ci := range before[gi] {
+			b, a := before[gi][ci], after[gi][ci]
+			where := fmt.Sprintf("row group %d column %d", gi, ci)
+			if b.Values != a.Values {
+				return fmt.Sprintf("column-index-or-statistics-values: %s: before %.300s after %.300s", where, b.Values, a.Values)
+			}
+			if !reflect.DeepEqual(b.Pages, a.Pages) {
+				return fmt.Sprintf("column-index-entries: %s: before %v after %v", where, b.Pages, a.Pages)
+			}
+			if !reflect.DeepEqual(b.Locs, a.Locs) {
+				return fmt.Sprintf("offset-index: %s: before %v after %v", where, b.Locs, a.Locs)
+			}
+			b.Values, b.Pages, b.Locs, a.Values, a.Pages, a.Locs = "", nil, nil, "", nil, nil
+			if !reflect.DeepEqual(b, a) {
+				return fmt.Sprintf("chunk-metadata: %s: before %+v after %+v", where, b, a)
+			}
+		}
+	}
+	return ""
+}
+
 // layout numbers of a chunk in the text of the `copy.splice` op; withBloom: request form
 func (c *c11Chunk) layoutText(bloomLen int64, request bool) string {
 	d := "n"
@@ -399,10 +429,12 @@ type c11File struct {
 	info  [][]c11Chunk
 	rgs   []parquet.RowGroup
 	rows  []reflect.Value // Go rows per row group (nil when not tracked)
+	enc   bool            // opened with decryption keys
 }
 
 type c11Env struct {
 	chunkOf map[*parquet.FileColumnChunk]*c11Chunk // metadata of every source file chunk
+	files   []*c11File                             // every source file opened for the case
 }
 
 func (env *c11Env) open(file []byte, rows reflect.Value, dec ...parquet.FileOption) (*c11File, error) {
@@ -417,7 +449,8 @@ func (env *c11Env) open(file []byte, rows reflect.Value, dec ...parquet.FileOpti
 	if e := c11PageErr(info); e != "" {
 		return nil, fmt.Errorf("%s", e)
 	}
-	cf := &c11File{bytes: file, f: f, info: info, rgs: f.RowGroups()}
+	cf := &c11File{bytes: file, f: f, info: info, rgs: f.RowGroups(), enc: len(dec) > 0}
+	env.files = append(env.files, cf)
 	start := 0
 	for gi, rg := range cf.rgs {
 		for ci, cc := range rg.ColumnChunks() {
@@ -508,7 +541,7 @@ func c11ReadRows(rg parquet.RowGroup) (out []parquet.Row, err error) {
 // describe a row group for the Lean model; ok=false when a chunk cannot be described
 func (env *c11Env) describe(rg parquet.RowGroup, sb *[]string) bool {
 	t := fmt.Sprintf("%T", rg)
-	segs, impl := parquet.VerifRowGroupSegments(rg)
+	segs, _ := parquet.VerifRowGroupSegments(rg)
 	leaf := ""
 	switch {
 	case t == "*parquet.FileRowGroup":
@@ -526,9 +559,13 @@ func (env *c11Env) describe(rg parquet.RowGroup, sb *[]string) bool {
 	case t == "*parquet.multiRowGroup":
 		*sb = append(*sb, fmt.Sprintf("S,multi,%d", len(segs)))
 	case t == "*parquet.sortedSegmentRowGroup":
-		if impl && segs == nil {
+		// which of the two the row group is comes from its fields, not from what rowGroupSegments()
+		// answers (the answer is what the mirror's segmentsOf is compared with)
+		fsegs, drop, _ := parquet.VerifSortedSegmentRowGroup(rg)
+		if drop {
 			leaf = "sortedDedup"
 		} else {
+			segs = fsegs
 			*sb = append(*sb, fmt.Sprintf("S,sorted,%d", len(segs)))
 		}
 	case strings.HasPrefix(t, "props."):
@@ -574,6 +611,43 @@ func (env *c11Env) describeChunk(c parquet.ColumnChunk) (string, bool) {
 	return "O", true
 }
 
+// c11SegmentsVsMirror compares rowGroupSegments() of rg and of everything below it with what the
+// mirror's segmentsOf (CopyPath.lean) says of the dynamic type: multiRowGroup = its children;
+// sortedSegmentRowGroup = its segments unless it drops duplicated rows (then: implemented, none);
+// mergedRowGroup = implemented, none; every other type does not implement the interface.
+func c11SegmentsVsMirror(rg parquet.RowGroup) string {
+	t := fmt.Sprintf("%T", rg)
+	segs, impl := parquet.VerifRowGroupSegments(rg)
+	switch {
+	case t == "*parquet.sortedSegmentRowGroup":
+		fsegs, drop, _ := parquet.VerifSortedSegmentRowGroup(rg)
+		if drop && (!impl || len(segs) != 0) {
+			return fmt.Sprintf("%s dropping duplicated rows: rowGroupSegments() answers %d segments (implemented=%v), the mirror none (deduplication spans the segments)", t, len(segs), impl)
+		}
+		if !drop && (!impl || len(segs) != len(fsegs)) {
+			return fmt.Sprintf("%s: rowGroupSegments() answers %d segments (implemented=%v), the mirror its %d segments", t, len(segs), impl, len(fsegs))
+		}
+	case t == "*parquet.mergedRowGroup":
+		if !impl || len(segs) != 0 {
+			return fmt.Sprintf("%s: rowGroupSegments() answers %d segments (implemented=%v), the mirror none (heap merge)", t, len(segs), impl)
+		}
+	case t == "*parquet.multiRowGroup":
+		if !impl {
+			return t + ": orderedRowGroupSegments not implemented, the mirror says its children"
+		}
+	default:
+		if impl {
+			return t + ": implements orderedRowGroupSegments, the mirror says it does not"
+		}
+	}
+	for _, s := range segs {
+		if why := c11SegmentsVsMirror(s); why != "" {
+			return why
+		}
+	}
+	return ""
+}
+
 // expected marker per dynamic type (cross-checked against chunkTransparentRowGroup)
 func c11Marker(rg parquet.RowGroup) bool {
 	t := fmt.Sprintf("%T", rg)
@@ -586,6 +660,7 @@ type c11Out struct {
 	file           []byte
 	copyN, reencN  int64
 	err            error
+	again          func() c11Out // the same writer after Reset, the same input once more
 }
 
 func c11NewWriter(w io.Writer, schema *parquet.Schema, cfg *c11Cfg) (pw *parquet.Writer, err error) {
@@ -597,19 +672,39 @@ func c11NewWriter(w io.Writer, schema *parquet.Schema, cfg *c11Cfg) (pw *parquet
 	return parquet.NewWriter(w, append([]parquet.WriterOption{schema}, cfg.Opts...)...), nil
 }
 
-// write the sources through WriteRowGroup under cfg; the library globals are held for the call
+// write the sources through WriteRowGroup under cfg; the library globals are held for the call.
+// out.again (set when the pass succeeded) resets the same writer onto a fresh buffer (Writer.Reset)
+// and writes the same rows and row groups once more: a writer that is reused and sources that are
+// handed to WriteRowGroup more than once.
 func c11WriteRowGroups(schema *parquet.Schema, cfg *c11Cfg, prefix []parquet.Row, srcs []*c11Source, disable bool) (out c11Out) {
+	buf := new(bytes.Buffer)
+	pw, err := c11NewWriter(buf, schema, cfg)
+	if err != nil {
+		out.err = err
+		return
+	}
+	out = c11Pass(pw, buf, prefix, srcs, disable)
+	if out.err == nil {
+		out.again = func() (o c11Out) {
+			defer func() {
+				if r := recover(); r != nil {
+					o.err = fmt.Errorf("PANIC: %v", r)
+				}
+			}()
+			buf2 := new(bytes.Buffer)
+			pw.Reset(buf2)
+			return c11Pass(pw, buf2, prefix, srcs, disable)
+		}
+	}
+	return
+}
+
+func c11Pass(pw *parquet.Writer, buf *bytes.Buffer, prefix []parquet.Row, srcs []*c11Source, disable bool) (out c11Out) {
 	defer func() {
 		if r := recover(); r != nil {
 			out.err = fmt.Errorf("PANIC: %v", r)
 		}
 	}()
-	var buf bytes.Buffer
-	pw, err := c11NewWriter(&buf, schema, cfg)
-	if err != nil {
-		out.err = err
-		return
-	}
 	// rows the destination writer already buffers (Write/WriteRows without Flush) when the row
 	// group arrives
 	for i := 0; i < len(prefix); {
@@ -776,6 +871,7 @@ type c11Case struct {
 	srcDesc   string
 	keyCol    int // column of the sort key in the destination schema (-1 = none)
 	prefix    int // number of rows (the first rows of Rows()) the destination already buffers
+	reuse     bool // the destination writer is Reset and handed the same input once more
 }
 
 // settings oracle: `got` (written through WriteRowGroup) must honour B's settings as far as `ref`
@@ -1249,6 +1345,9 @@ func c11Run(ctx *core.Ctx, env *c11Env, d interface {
 					break
 				}
 				reqs = append(reqs, "copy.choose cur "+g+" "+colsTxt+" "+strings.Join(toks, ";"))
+				if why := c11SegmentsVsMirror(s.rg); why != "" {
+					ctx.Fail("L2", "row-group-segments-vs-mirror "+strings.SplitN(why, ":", 2)[0], "rowGroupSegments() differs from the mirror's segmentsOf: "+why, detail(nil))
+				}
 				if parquet.VerifChunkTransparent(s.rg) != c11Marker(s.rg) {
 					ctx.Fail("L2", "marker-table "+fmt.Sprintf("%T", s.rg), "chunkTransparentRowGroup differs from the mirror's table of marker types", detail(nil))
 				}
@@ -1293,38 +1392,10 @@ func c11Run(ctx *core.Ctx, env *c11Env, d interface {
 		ctx.Hist("path", "rows")
 	}
 
-	// ---- L1a: same rows, same order
 	refCols, err := gen.ReadColumns(ref, c.b.Dec...)
 	if err != nil {
 		ctx.Fail("L1", "row-path-unreadable "+sig+" "+errClass(err), "the one-by-one file cannot be read back: "+err.Error(), detail(nil))
 		return
-	}
-	outCols, err := gen.ReadColumns(out.file, c.b.Dec...)
-	if err != nil {
-		ctx.Fail("L1", "output-unreadable "+sig+" "+errClass(err), "the file written through WriteRowGroup cannot be read back: "+err.Error(), detail(map[string]any{"copied_chunks": out.copyN, "reencoded_row_groups": out.reencN}))
-		return
-	}
-	pathSig := fmt.Sprintf("copy=%v reencode=%v", out.copyN > 0, out.reencN > 0)
-	// the output must be readable row by row (the row reader insists on pages starting at a row)
-	if _, _, err := gen.ReadRowsColumns(out.file, 64, c.b.Dec...); err != nil {
-		if _, _, rerr := gen.ReadRowsColumns(ref, 64, c.b.Dec...); rerr != nil {
-			ctx.Hist("row-path-file-unreadable-by-rows-too", c.kind)
-		} else {
-			ctx.Fail("L1", "output-rows-unreadable "+pathSig+" "+errClass(err), "the file written through WriteRowGroup cannot be read back row by row: "+err.Error(),
-				detail(map[string]any{"copied_chunks": out.copyN, "reencoded_row_groups": out.reencN}))
-		}
-	}
-	// ... and accepted by the Lean spec reader of C02 (structure, page/row alignment, counts)
-	if d != nil && !c.b.Enc { // the Lean reader does not decrypt
-		if why := c11SpecCheck(d, out.file, c.b.MaxRows); why != "" {
-			if c11SpecCheck(d, ref, c.b.MaxRows) != "" {
-				ctx.Hist("row-path-file-rejected-by-spec-reader-too", c02Class(why))
-			} else {
-				ctx.Fail("L1", "output-rejected-by-spec-reader "+pathSig+" "+c02Class(why), "the independent (Lean) Parquet reader rejects the file written through WriteRowGroup, and accepts the one written row by row: "+why,
-					detail(map[string]any{"copied_chunks": out.copyN, "reencoded_row_groups": out.reencN}))
-			}
-		}
-		ctx.Hist("spec-reader-checked", c.kind)
 	}
 	tieDependent := false
 	for _, s := range c.srcs {
@@ -1339,180 +1410,254 @@ func c11Run(ctx *core.Ctx, env *c11Env, d interface {
 	if tieDependent {
 		ctx.Hist("heap-merge-compared-up-to-tie-order", c.kind)
 	}
-	if same, desc := c.compareRows(tieDependent, refCols, outCols, ref, out.file); !same && c.kind == "multi-wrapper" {
-		ctx.Fail("L1", "multi-row-group-over-wrapper-rows-depend-on-fast-path",
-			fmt.Sprintf("a MultiRowGroup with a child whose Rows() differs from its column chunks: Rows() of the multi row group (and WriteRowGroup with both fast paths disabled) reads the child's chunks, the segmented fast path writes the child through its own Rows(): %s", desc),
-			detail(map[string]any{"copied_chunks": out.copyN, "reencoded_row_groups": out.reencN}))
-	} else if !same {
-		ctx.Fail("L1", "rows-differ "+sig+" "+pathSig, "WriteRowGroup stored other rows than Rows() yields: "+desc,
-			detail(map[string]any{"copied_chunks": out.copyN, "reencoded_row_groups": out.reencN}))
-	}
-	offCols, err := gen.ReadColumns(off.file, c.b.Dec...)
-	if err != nil {
-		ctx.Fail("L1", "output-unreadable(disabled) "+sig+" "+errClass(err), "the file written with both fast paths disabled cannot be read back: "+err.Error(), detail(nil))
-	} else if same, desc := c.compareRows(tieDependent, refCols, offCols, ref, off.file); !same {
-		ctx.Fail("L1", "rows-differ(disabled) "+sig, "with both fast paths disabled WriteRowGroup stored other rows than Rows() yields: "+desc, detail(nil))
-	}
-	// independent expectation (reference shredder) for the kinds whose Go rows are known
-	known := true
-	var sh gen.Shredder
-	nrows := 0
-	for left := c.prefix; left > 0 && known; { // the buffered rows are the first rows of the sources
+	// ---- the oracle on one output of WriteRowGroup (pass = "" for the fresh writer, a suffix of the
+	// failure keys for the output of the reused writer)
+	sig0 := sig
+	checkOut := func(out c11Out, pass string) (outInfo [][]c11Chunk, ncol int, ok bool) {
+		sig := sig0 + pass
+		// ---- L1a: same rows, same order
+		outCols, err := gen.ReadColumns(out.file, c.b.Dec...)
+		if err != nil {
+			ctx.Fail("L1", "output-unreadable "+sig+" "+errClass(err), "the file written through WriteRowGroup cannot be read back: "+err.Error(), detail(map[string]any{"copied_chunks": out.copyN, "reencoded_row_groups": out.reencN}))
+			return nil, 0, false
+		}
+		pathSig := fmt.Sprintf("copy=%v reencode=%v", out.copyN > 0, out.reencN > 0) + pass
+		// the output must be readable row by row (the row reader insists on pages starting at a row)
+		if _, _, err := gen.ReadRowsColumns(out.file, 64, c.b.Dec...); err != nil {
+			if _, _, rerr := gen.ReadRowsColumns(ref, 64, c.b.Dec...); rerr != nil {
+				ctx.Hist("row-path-file-unreadable-by-rows-too", c.kind)
+			} else {
+				ctx.Fail("L1", "output-rows-unreadable "+pathSig+" "+errClass(err), "the file written through WriteRowGroup cannot be read back row by row: "+err.Error(),
+					detail(map[string]any{"copied_chunks": out.copyN, "reencoded_row_groups": out.reencN}))
+			}
+		}
+		// ... and accepted by the Lean spec reader of C02 (structure, page/row alignment, counts)
+		if d != nil && !c.b.Enc { // the Lean reader does not decrypt
+			if why := c11SpecCheck(d, out.file, c.b.MaxRows); why != "" {
+				if c11SpecCheck(d, ref, c.b.MaxRows) != "" {
+					ctx.Hist("row-path-file-rejected-by-spec-reader-too", c02Class(why))
+				} else {
+					ctx.Fail("L1", "output-rejected-by-spec-reader "+pathSig+" "+c02Class(why), "the independent (Lean) Parquet reader rejects the file written through WriteRowGroup, and accepts the one written row by row: "+why,
+						detail(map[string]any{"copied_chunks": out.copyN, "reencoded_row_groups": out.reencN}))
+				}
+			}
+			ctx.Hist("spec-reader-checked", c.kind)
+		}
+		if same, desc := c.compareRows(tieDependent, refCols, outCols, ref, out.file); !same && c.kind == "multi-wrapper" {
+			ctx.Fail("L1", "multi-row-group-over-wrapper-rows-depend-on-fast-path",
+				fmt.Sprintf("a MultiRowGroup with a child whose Rows() differs from its column chunks: Rows() of the multi row group (and WriteRowGroup with both fast paths disabled) reads the child's chunks, the segmented fast path writes the child through its own Rows(): %s", desc),
+				detail(map[string]any{"copied_chunks": out.copyN, "reencoded_row_groups": out.reencN}))
+		} else if !same {
+			ctx.Fail("L1", "rows-differ "+sig0+" "+pathSig, "WriteRowGroup stored other rows than Rows() yields: "+desc,
+				detail(map[string]any{"copied_chunks": out.copyN, "reencoded_row_groups": out.reencN}))
+		}
+		// independent expectation (reference shredder) for the kinds whose Go rows are known
+		known := true
+		var sh gen.Shredder
+		nrows := 0
+		for left := c.prefix; left > 0 && known; { // the buffered rows are the first rows of the sources
+			for _, s := range c.srcs {
+				if s.rows == nil {
+					known = false
+					break
+				}
+				for _, rv := range s.rows {
+					for i := 0; i < rv.Len() && left > 0; i++ {
+						sh.ShredRow(c.entry.Schema, rv.Index(i))
+						left--
+					}
+				}
+			}
+			break
+		}
 		for _, s := range c.srcs {
 			if s.rows == nil {
 				known = false
 				break
 			}
 			for _, rv := range s.rows {
-				for i := 0; i < rv.Len() && left > 0; i++ {
+				for i := 0; i < rv.Len(); i++ {
 					sh.ShredRow(c.entry.Schema, rv.Index(i))
-					left--
+					nrows++
 				}
 			}
 		}
-		break
-	}
-	for _, s := range c.srcs {
-		if s.rows == nil {
-			known = false
-			break
-		}
-		for _, rv := range s.rows {
-			for i := 0; i < rv.Len(); i++ {
-				sh.ShredRow(c.entry.Schema, rv.Index(i))
-				nrows++
+		if known && nrows > 0 && parquet.EqualNodes(c.entry.Schema, c.schema) {
+			if col, i, desc := firstDiff(sh.Cols, outCols); col != -2 {
+				ctx.Fail("L1", "rows-differ-from-source "+sig0+" "+pathSig, fmt.Sprintf("the output does not hold the source rows: column %d entry %d: %s", col, i, desc),
+					detail(map[string]any{"copied_chunks": out.copyN, "reencoded_row_groups": out.reencN}))
 			}
 		}
-	}
-	if known && nrows > 0 && parquet.EqualNodes(c.entry.Schema, c.schema) {
-		if col, i, desc := firstDiff(sh.Cols, outCols); col != -2 {
-			ctx.Fail("L1", "rows-differ-from-source "+sig+" "+pathSig, fmt.Sprintf("the output does not hold the source rows: column %d entry %d: %s", col, i, desc),
-				detail(map[string]any{"copied_chunks": out.copyN, "reencoded_row_groups": out.reencN}))
-		}
-	}
 
-	// ---- L1b: B's settings honoured
-	fo, err1 := parquet.OpenFile(bytes.NewReader(out.file), int64(len(out.file)), c.b.Dec...)
-	fr, err2 := parquet.OpenFile(bytes.NewReader(ref), int64(len(ref)), c.b.Dec...)
-	if err1 != nil || err2 != nil {
-		ctx.Fail("L1", "output-unopenable "+sig, fmt.Sprintf("OpenFile failed: %v %v", err1, err2), detail(nil))
-		return
-	}
-	// ---- L1d: the page index and the statistics of the output describe the pages it holds
-	// (parquet.thrift OffsetIndex / ColumnIndex / Statistics / SizeStatistics), as far as they do
-	// in the file written row by row
-	{
-		px := map[string]any{"copied_chunks": out.copyN, "reencoded_row_groups": out.reencN}
-		viol, derr := c11DescribeOracle(fo)
-		if derr != nil || len(viol) > 0 {
-			refViol, rerr := c11DescribeOracle(fr)
-			switch {
-			case rerr != nil:
-				ctx.Hist("row-path-file-pages-unreadable-too", c.kind)
-			case derr != nil:
-				ctx.Fail("L1", "output-pages-unreadable "+pathSig+" "+errClass(derr), "the pages of the file written through WriteRowGroup cannot be read one after the other: "+derr.Error(), detail(px))
-			default:
-				for _, aspect := range sortedKeys(viol) {
-					if _, too := refViol[aspect]; too {
-						ctx.Hist("metadata-does-not-describe-pages-on-row-path-too", aspect) // not specific to WriteRowGroup (C05)
+		// ---- L1b: B's settings honoured
+		fo, errO := parquet.OpenFile(bytes.NewReader(out.file), int64(len(out.file)), c.b.Dec...)
+		fr, err2 := parquet.OpenFile(bytes.NewReader(ref), int64(len(ref)), c.b.Dec...)
+		if errO != nil || err2 != nil {
+			ctx.Fail("L1", "output-unopenable "+sig, fmt.Sprintf("OpenFile failed: %v %v", errO, err2), detail(nil))
+			return nil, 0, false
+		}
+		// ---- L1d: the page index and the statistics of the output describe the pages it holds
+		// (parquet.thrift OffsetIndex / ColumnIndex / Statistics / SizeStatistics), as far as they do
+		// in the file written row by row
+		{
+			px := map[string]any{"copied_chunks": out.copyN, "reencoded_row_groups": out.reencN}
+			viol, derr := c11DescribeOracle(fo)
+			if derr != nil || len(viol) > 0 {
+				refViol, rerr := c11DescribeOracle(fr)
+				switch {
+				case rerr != nil:
+					ctx.Hist("row-path-file-pages-unreadable-too", c.kind)
+				case derr != nil:
+					ctx.Fail("L1", "output-pages-unreadable "+pathSig+" "+errClass(derr), "the pages of the file written through WriteRowGroup cannot be read one after the other: "+derr.Error(), detail(px))
+				default:
+					for _, aspect := range sortedKeys(viol) {
+						if _, too := refViol[aspect]; too {
+							ctx.Hist("metadata-does-not-describe-pages-on-row-path-too", aspect) // not specific to WriteRowGroup (C05)
+							continue
+						}
+						px["violated"] = viol[aspect]
+						ctx.Fail("L1", "metadata-does-not-describe-pages "+aspect+" "+pathSig,
+							"the metadata of a file written through WriteRowGroup does not describe the pages the file holds (it does in the file written row by row): "+viol[aspect], detail(px))
+					}
+				}
+			}
+			ctx.Hist("metadata-describes-pages-checked", pathSig)
+		}
+		var err1 error
+		outInfo, err1 = c11FileInfo(out.file, fo, c.b.Enc)
+		refInfo, err2 := c11FileInfo(ref, fr, c.b.Enc)
+		// an encrypted side never takes the verbatim path (pages sealed under another file's AAD / in
+		// the clear); stated here on the counters alone, the mirror comparison follows below
+		srcEnc := false
+		for _, s := range c.srcs {
+			for _, cc := range s.rg.ColumnChunks() {
+				if fc, ok := cc.(*parquet.FileColumnChunk); ok && parquet.VerifSourceEncrypted(fc) {
+					srcEnc = true
+				}
+			}
+		}
+		if c.b.Enc || srcEnc {
+			ctx.Hist("encryption", fmt.Sprintf("source=%v destination=%v %s", srcEnc, c.b.Enc, pathSig))
+			if out.copyN != 0 && (c.b.Enc || c.kind == "file" || c.kind == "range") {
+				ctx.Fail("L2", "verbatim-copy-with-an-encrypted-side", fmt.Sprintf("%d chunks were copied verbatim although the source or the destination is encrypted", out.copyN), detail(nil))
+			}
+		}
+		if err1 != nil || err2 != nil {
+			ctx.Fail("L1", "output-metadata-unreadable "+sig, fmt.Sprintf("page headers / indexes unreadable: %v %v", err1, err2), detail(nil))
+			return nil, 0, false
+		}
+		if e := c11PageErr(refInfo); e != "" {
+			ctx.Fail("L1", "output-metadata-unreadable "+sig, "page headers / indexes of the file written row by row unreadable: "+e, detail(nil))
+			return nil, 0, false
+		}
+		ncol = len(c.schema.Columns())
+		aspects, stat := c11Settings(c.b, outInfo, refInfo, ncol)
+		extra := map[string]any{"copied_chunks": out.copyN, "reencoded_row_groups": out.reencN, "output_row_groups": rowGroupSizes(outInfo)}
+		if e := c11PageErr(outInfo); e != "" {
+			// the settings oracle needs every page header; the L2 comparison below still runs
+			ctx.Fail("L1", "output-metadata-unreadable "+sig, "page headers / indexes unreadable: a page location of the output's offset index does not lead to a page header: "+e, detail(extra))
+			aspects, stat = nil, nil
+		}
+		for _, a := range aspects {
+			extra["violated"] = a
+			ctx.Fail("L1", "setting-not-honoured "+aspectClass(a)+" "+pathSig, "the destination writer's setting is not honoured by WriteRowGroup: "+a, detail(extra))
+		}
+		if len(stat) > 0 {
+			extra["violated"] = stat
+			if out.copyN > 0 {
+				ctx.Fail("L1", "verbatim-copy-ignores-destination-statistics-settings",
+					"WriteRowGroup copied chunks verbatim although the destination writer's statistics settings (DataPageStatistics / SkipPageStatistics / ColumnIndexSizeLimit / SkipPageBounds / DeprecatedDataPageStatistics) differ from what the source chunks carry: "+stat[0],
+					detail(extra))
+			} else {
+				ctx.Fail("L1", "statistics-setting-not-honoured "+aspectClass(stat[0])+" "+pathSig, "the destination writer's statistics setting is not honoured by WriteRowGroup: "+stat[0], detail(extra))
+			}
+		}
+
+		// ---- L1c: configured bloom filters contain every stored value
+		if len(c.b.Bloom) > 0 {
+			paths := c.schema.Columns()
+			for _, rg := range outInfo {
+				for ci := range rg {
+					if ci >= len(paths) {
 						continue
 					}
-					px["violated"] = viol[aspect]
-					ctx.Fail("L1", "metadata-does-not-describe-pages "+aspect+" "+pathSig,
-						"the metadata of a file written through WriteRowGroup does not describe the pages the file holds (it does in the file written row by row): "+viol[aspect], detail(px))
-				}
-			}
-		}
-		ctx.Hist("metadata-describes-pages-checked", pathSig)
-	}
-	outInfo, err1 := c11FileInfo(out.file, fo, c.b.Enc)
-	refInfo, err2 := c11FileInfo(ref, fr, c.b.Enc)
-	// an encrypted side never takes the verbatim path (pages sealed under another file's AAD / in
-	// the clear); stated here on the counters alone, the mirror comparison follows below
-	srcEnc := false
-	for _, s := range c.srcs {
-		for _, cc := range s.rg.ColumnChunks() {
-			if fc, ok := cc.(*parquet.FileColumnChunk); ok && parquet.VerifSourceEncrypted(fc) {
-				srcEnc = true
-			}
-		}
-	}
-	if c.b.Enc || srcEnc {
-		ctx.Hist("encryption", fmt.Sprintf("source=%v destination=%v %s", srcEnc, c.b.Enc, pathSig))
-		if out.copyN != 0 && (c.b.Enc || c.kind == "file" || c.kind == "range") {
-			ctx.Fail("L2", "verbatim-copy-with-an-encrypted-side", fmt.Sprintf("%d chunks were copied verbatim although the source or the destination is encrypted", out.copyN), detail(nil))
-		}
-	}
-	if err1 != nil || err2 != nil {
-		ctx.Fail("L1", "output-metadata-unreadable "+sig, fmt.Sprintf("page headers / indexes unreadable: %v %v", err1, err2), detail(nil))
-		return
-	}
-	if e := c11PageErr(refInfo); e != "" {
-		ctx.Fail("L1", "output-metadata-unreadable "+sig, "page headers / indexes of the file written row by row unreadable: "+e, detail(nil))
-		return
-	}
-	ncol := len(c.schema.Columns())
-	aspects, stat := c11Settings(c.b, outInfo, refInfo, ncol)
-	extra := map[string]any{"copied_chunks": out.copyN, "reencoded_row_groups": out.reencN, "output_row_groups": rowGroupSizes(outInfo)}
-	if e := c11PageErr(outInfo); e != "" {
-		// the settings oracle needs every page header; the L2 comparison below still runs
-		ctx.Fail("L1", "output-metadata-unreadable "+sig, "page headers / indexes unreadable: a page location of the output's offset index does not lead to a page header: "+e, detail(extra))
-		aspects, stat = nil, nil
-	}
-	for _, a := range aspects {
-		extra["violated"] = a
-		ctx.Fail("L1", "setting-not-honoured "+aspectClass(a)+" "+pathSig, "the destination writer's setting is not honoured by WriteRowGroup: "+a, detail(extra))
-	}
-	if len(stat) > 0 {
-		extra["violated"] = stat
-		if out.copyN > 0 {
-			ctx.Fail("L1", "verbatim-copy-ignores-destination-statistics-settings",
-				"WriteRowGroup copied chunks verbatim although the destination writer's statistics settings (DataPageStatistics / SkipPageStatistics / ColumnIndexSizeLimit / SkipPageBounds / DeprecatedDataPageStatistics) differ from what the source chunks carry: "+stat[0],
-				detail(extra))
-		} else {
-			ctx.Fail("L1", "statistics-setting-not-honoured "+aspectClass(stat[0])+" "+pathSig, "the destination writer's statistics setting is not honoured by WriteRowGroup: "+stat[0], detail(extra))
-		}
-	}
-
-	// ---- L1c: configured bloom filters contain every stored value
-	if len(c.b.Bloom) > 0 {
-		paths := c.schema.Columns()
-		for _, rg := range outInfo {
-			for ci := range rg {
-				if ci >= len(paths) {
-					continue
-				}
-				if _, has := c.b.Bloom[strings.Join(paths[ci], ".")]; !has || rg[ci].BloomOff == 0 {
-					continue
-				}
-				dictPages, plainPages := 0, 0
-				for _, p := range rg[ci].Pages {
-					switch p.Enc {
-					case int(format.RLEDictionary), int(format.PlainDictionary):
-						dictPages++
-					case int(format.Plain):
-						plainPages++
+					if _, has := c.b.Bloom[strings.Join(paths[ci], ".")]; !has || rg[ci].BloomOff == 0 {
+						continue
+					}
+					dictPages, plainPages := 0, 0
+					for _, p := range rg[ci].Pages {
+						switch p.Enc {
+						case int(format.RLEDictionary), int(format.PlainDictionary):
+							dictPages++
+						case int(format.Plain):
+							plainPages++
+						}
+					}
+					if rg[ci].HasDict && dictPages > 0 && plainPages > 0 {
+						ctx.Hist("bloom-filter-on-chunk-with-dictionary-fallback-mid-chunk", pathSig)
 					}
 				}
-				if rg[ci].HasDict && dictPages > 0 && plainPages > 0 {
-					ctx.Hist("bloom-filter-on-chunk-with-dictionary-fallback-mid-chunk", pathSig)
+			}
+			misses, err := c11BloomMisses(out.file, c.b.Dec...)
+			if err != nil {
+				ctx.Fail("L1", "bloom-filter-unreadable "+sig+" "+errClass(err), "bloom filters of the output cannot be checked: "+err.Error(), detail(extra))
+			} else if len(misses) > 0 {
+				if refMisses, _ := c11BloomMisses(ref, c.b.Dec...); len(refMisses) > 0 {
+					ctx.Hist("bloom-miss-on-row-path-too", c.kind) // not specific to WriteRowGroup (C07)
+				} else {
+					extra["missed"] = misses
+					ctx.Fail("L1", "bloom-filter-misses-stored-value "+pathSig, "a bloom filter written through WriteRowGroup answers absent for a value stored in its chunk: "+misses[0], detail(extra))
 				}
 			}
+			ctx.Hist("bloom-containment-checked", c.kind)
 		}
-		misses, err := c11BloomMisses(out.file, c.b.Dec...)
-		if err != nil {
-			ctx.Fail("L1", "bloom-filter-unreadable "+sig+" "+errClass(err), "bloom filters of the output cannot be checked: "+err.Error(), detail(extra))
-		} else if len(misses) > 0 {
-			if refMisses, _ := c11BloomMisses(ref, c.b.Dec...); len(refMisses) > 0 {
-				ctx.Hist("bloom-miss-on-row-path-too", c.kind) // not specific to WriteRowGroup (C07)
-			} else {
-				extra["missed"] = misses
-				ctx.Fail("L1", "bloom-filter-misses-stored-value "+pathSig, "a bloom filter written through WriteRowGroup answers absent for a value stored in its chunk: "+misses[0], detail(extra))
-			}
-		}
-		ctx.Hist("bloom-containment-checked", c.kind)
-	}
 
+		return outInfo, ncol, true
+	}
+	outInfo, ncol, ok := checkOut(out, "")
+	offCols, err := gen.ReadColumns(off.file, c.b.Dec...)
+	if err != nil {
+		ctx.Fail("L1", "output-unreadable(disabled) "+sig+" "+errClass(err), "the file written with both fast paths disabled cannot be read back: "+err.Error(), detail(nil))
+	} else if same, desc := c.compareRows(tieDependent, refCols, offCols, ref, off.file); !same {
+		ctx.Fail("L1", "rows-differ(disabled) "+sig, "with both fast paths disabled WriteRowGroup stored other rows than Rows() yields: "+desc, detail(nil))
+	}
+	// ---- the same writer after Reset, the same rows and row groups once more (always when chunks
+	// were spliced: what the writer stages of a spliced chunk comes from the source's metadata)
+	if out.again != nil && (c.reuse || out.copyN > 0) {
+		const reused = " writer-reused-after-Reset"
+		ctx.Hist("writer-reused-after-Reset", fmt.Sprintf("%s copy=%v reencode=%v", c.kind, out.copyN > 0, out.reencN > 0))
+		out2 := out.again()
+		if out2.err != nil {
+			ctx.Fail("L1", "write-row-group-error "+sig+reused+" "+errClass(out2.err), "WriteRowGroup on a writer reused after Reset failed on the row groups it wrote before: "+out2.err.Error(), detail(nil))
+		} else {
+			if out2.copyN != out.copyN || out2.reencN != out.reencN {
+				ctx.Fail("L2", "path-counters-differ-on-reused-writer "+sig, fmt.Sprintf("fresh writer: copy=%d reencode=%d; the same writer after Reset on the same row groups: copy=%d reencode=%d (the mirror's plan depends on the row groups and the configuration only)", out.copyN, out.reencN, out2.copyN, out2.reencN), detail(nil))
+			}
+			checkOut(out2, reused)
+		}
+	}
+	// ---- WriteRowGroup reads its source: the metadata of the source files (footer, page index) is
+	// what it was before the writes, as after reading the rows one by one
+	for _, cf := range env.files {
+		info, err := c11FileInfo(cf.bytes, cf.f, cf.enc)
+		if err != nil {
+			ctx.Fail("L1", "source-changed-by-WriteRowGroup unreadable", "the metadata of a source file cannot be read after WriteRowGroup: "+err.Error(), detail(nil))
+			continue
+		}
+		if why := c11InfoDiff(cf.info, info); why != "" {
+			ctx.Fail("L1", "source-changed-by-WriteRowGroup "+strings.SplitN(why, ":", 2)[0], "the open source file's metadata differs from what it was before it was handed to WriteRowGroup (Close, Reset of the destination included): "+why, detail(map[string]any{"copied_chunks": out.copyN, "reencoded_row_groups": out.reencN}))
+		}
+	}
+	if !ok {
+		return
+	}
+	refInfo, _ := func() ([][]c11Chunk, error) {
+		fr, err := parquet.OpenFile(bytes.NewReader(ref), int64(len(ref)), c.b.Dec...)
+		if err != nil {
+			return nil, err
+		}
+		return c11FileInfo(ref, fr, c.b.Enc)
+	}()
 	// ---- L2: counters vs the Lean mirror
 	if describable && len(reqs) > 0 {
 		ans, err := d.AskMany(reqs)
@@ -1904,12 +2049,19 @@ func c11Build(ctx *core.Ctx, env *c11Env, e *gen.Entry, r *rand.Rand, kind strin
 			children = append(children, cf.rgs...)
 		}
 		r.Shuffle(len(children), func(i, j int) { children[i], children[j] = children[j], children[i] })
-		m, err := parquet.MergeRowGroups(children, sortingB)
+		// one case in four drops duplicated rows: deduplication spans the (disjoint) segments and
+		// each input may hold repeated keys, so no segment may be written on its own
+		mergeCfg, dropping := sortingB, ""
+		if r.Intn(4) == 0 {
+			mergeCfg = parquet.SortingRowGroupConfig(parquet.SortingColumns(parquet.Ascending(key)), parquet.DropDuplicatedRows(true))
+			dropping = " dropping duplicated rows"
+		}
+		m, err := parquet.MergeRowGroups(children, mergeCfg)
 		if err != nil {
 			return fail("merge", err)
 		}
 		c.srcs = []*c11Source{{kind: kind, rg: m}}
-		c.srcDesc = fmt.Sprintf("MergeRowGroups of %d disjoint sorted files/buffers by %s (%T)", len(children), key, m)
+		c.srcDesc = fmt.Sprintf("MergeRowGroups of %d disjoint sorted files/buffers by %s%s (%T)", len(children), key, dropping, m)
 		c.schema = m.Schema()
 		if leaf, ok := c.schema.Lookup(key); ok {
 			c.keyCol = leaf.ColumnIndex
@@ -2020,6 +2172,7 @@ func c11Build(ctx *core.Ctx, env *c11Env, e *gen.Entry, r *rand.Rand, kind strin
 	if kind != "merged-packed" && r.Intn(3) == 0 {
 		c.prefix = []int{1, 2, 7, 50, n}[r.Intn(5)]
 	}
+	c.reuse = r.Intn(4) == 0
 	return c
 }
 
@@ -2102,7 +2255,7 @@ func c11F9(ctx *core.Ctx, env *c11Env, d interface {
 }
 
 func RunC11(ctx *core.Ctx) {
-	ctx.SetRule("catalogue struct types x random rows x source configuration A x destination configuration B (page version, codec, page buffer, MaxRowsPerRowGroup, dictionary limit, DataPageStatistics on/off, SkipPageStatistics, SkipPageBounds, deprecated statistics, ColumnIndexSizeLimit 1..64, default encodings, bloom filters; B either drawn independently or A with one axis changed) x source kind {file row groups, Buffer/GenericBuffer, row-range views, MultiRowGroup (files, views, buffers, foreign children), MergeRowGroups unsorted / sorted / dropping duplicates, dedup wrapper, ConvertRowGroup, foreign RowGroup, row-dropping foreign RowGroup, MultiRowGroup over a row-dropping child, MergeRowGroups of 2-4 disjoint sorted files/buffers (packed segments) with MaxRowsPerRowGroup around the total} x destination writer already buffering rows from WriteRows (one case in three, always for packed merges); nested MultiRowGroups mixing file and wrapper members with MaxRowsPerRowGroup below every segment; deferred bloom filter buffers; sources of 600/1030 rows (repeated columns beyond the 1024-value re-encode batches); oracle on the output: readable row by row and accepted by the C02 Lean spec reader (file.check), rows of (nested) multi row groups = members' Rows() in order, rows/order, settings, every row group <= MaxRowsPerRowGroup, configured bloom filters contain every stored value; non-trivial = at least 2 rows and A differs from B")
+	ctx.SetRule("catalogue struct types x random rows x source configuration A x destination configuration B (page version, codec, page buffer, MaxRowsPerRowGroup, dictionary limit, DataPageStatistics on/off, SkipPageStatistics, SkipPageBounds, deprecated statistics, ColumnIndexSizeLimit 1..64, default encodings, bloom filters; B either drawn independently or A with one axis changed) x source kind {file row groups, Buffer/GenericBuffer, row-range views, MultiRowGroup (files, views, buffers, foreign children), MergeRowGroups unsorted / sorted / dropping duplicates, dedup wrapper, ConvertRowGroup, foreign RowGroup, row-dropping foreign RowGroup, MultiRowGroup over a row-dropping child, MergeRowGroups of 2-4 disjoint sorted files/buffers (packed segments; one in four dropping duplicated rows) with MaxRowsPerRowGroup around the total} x destination writer already buffering rows from WriteRows (one case in three, always for packed merges); destination writer Reset onto a fresh buffer and handed the same rows and row groups once more (one case in four, always when chunks were spliced: all oracles on the second output, counters repeat, source file metadata unchanged); nested MultiRowGroups mixing file and wrapper members with MaxRowsPerRowGroup below every segment; deferred bloom filter buffers; sources of 600/1030 rows (repeated columns beyond the 1024-value re-encode batches); oracle on the output: readable row by row and accepted by the C02 Lean spec reader (file.check), rows of (nested) multi row groups = members' Rows() in order, rows/order, settings, every row group <= MaxRowsPerRowGroup, configured bloom filters contain every stored value; non-trivial = at least 2 rows and A differs from B")
 	// fixed case first (corpus)
 	{
 		env := &c11Env{chunkOf: map[*parquet.FileColumnChunk]*c11Chunk{}}
@@ -2112,7 +2265,7 @@ func RunC11(ctx *core.Ctx) {
 			c11F9(ctx, env, nil)
 		}
 	}
-	per := ctx.Scale(3, 28) // cases per (type, kind)
+	per := ctx.Scale(3, 22) // cases per (type, kind); 22 since round 4 (the reuse pass repeats the oracle on about a third of the cases)
 	var wg sync.WaitGroup
 	sem := make(chan struct{}, 16)
 	for ei, e := range gen.Catalog {
